@@ -132,7 +132,7 @@ fn check_log<VM: VMBinding>() {
 macro_rules! c18 {
     ($name:ident, $f:ident, $vm:ty $(, $arg:expr)*) => {
         #[kani::proof]
-        #[kani::unwind(3)]
+        #[kani::unwind(6)]
         #[kani::stub(mmtk::util::metadata::side_metadata::global_side_metadata_base_address, stub_base)]
         fn $name() {
             $f::<$vm>($($arg),*);
@@ -159,3 +159,66 @@ c18!(c18_pin_side, check_pin, V0);
 c18!(c18_pin_header_hi, check_pin, V1);
 #[cfg(feature = "object_pinning")]
 c18!(c18_pin_header_lo, check_pin, V2);
+
+/// The transition loops against the interference contract of the metadata CAS (see interference.rs): with finitely
+/// many spurious CAS failures (neighbouring bits of the byte changed by other threads), a caller is told the
+/// transition was its own only if this call performed it, and is told otherwise only if the object was already in the
+/// target state.
+fn check_mark_under_interference<VM: VMBinding>() {
+    use crate::interference::*;
+    let spec: MetadataSpec = *VM::VMObjectModel::LOCAL_MARK_BIT_SPEC.as_spec();
+    let mut env = Env::new();
+    env.place(&spec);
+    let obj = env.object();
+    let pos = env.pos(&spec);
+    let ms = MarkState::new();
+    let s0 = env.snap();
+    let was_marked = field(&s0, pos) == 1;
+    unsafe {
+        SPURIOUS_BUDGET = 2;
+        SPURIOUS_SEEN = 0;
+    }
+    let won = ms.test_and_mark::<VM>(obj);
+    let s1 = env.snap();
+    assert!(won == !was_marked, "C18.mark_state.wins_iff_it_performed_the_transition_despite_interference");
+    assert!(field(&s1, pos) == 1 && frame(&s0, &s1, pos, None), "C18.mark_state.final_state_marked_despite_interference");
+    kani::cover!(won && unsafe { SPURIOUS_SEEN } == 2, "C18.cover.marked_after_two_interferences");
+}
+
+fn check_log_under_interference<VM: VMBinding>() {
+    use crate::interference::*;
+    use mmtk::verif_hooks::barriers as b;
+    let spec: MetadataSpec = *VM::VMObjectModel::GLOBAL_LOG_BIT_SPEC.as_spec();
+    let mut env = Env::new();
+    env.place(&spec);
+    let obj = env.object();
+    let pos = env.pos(&spec);
+    let barrier = b::ObjectBarrier::new(Sem::<VM>(std::marker::PhantomData));
+    let s0 = env.snap();
+    let unlogged0 = field(&s0, pos) == 1;
+    unsafe {
+        SPURIOUS_BUDGET = 2;
+        SPURIOUS_SEEN = 0;
+    }
+    let won = b::log_object(&barrier, obj);
+    let s1 = env.snap();
+    assert!(won == unlogged0, "C18.log.wins_iff_it_performed_the_transition_despite_interference");
+    assert!(field(&s1, pos) == 0 && frame(&s0, &s1, pos, None), "C18.log.final_state_logged_despite_interference");
+    kani::cover!(won && unsafe { SPURIOUS_SEEN } == 2, "C18.cover.logged_after_two_interferences");
+}
+
+macro_rules! c18i {
+    ($name:ident, $f:ident, $vm:ty) => {
+        #[kani::proof]
+        #[kani::unwind(6)]
+        #[kani::stub(mmtk::util::metadata::side_metadata::global_side_metadata_base_address, stub_base)]
+        #[kani::stub(mmtk::util::metadata::MetadataSpec::compare_exchange_metadata, crate::interference::cas_contract)]
+        fn $name() {
+            $f::<$vm>();
+        }
+    };
+}
+c18i!(c18_mark_under_interference_side, check_mark_under_interference, V0);
+c18i!(c18_mark_under_interference_header, check_mark_under_interference, V2);
+c18i!(c18_log_under_interference_side, check_log_under_interference, V0);
+c18i!(c18_log_under_interference_header, check_log_under_interference, V2);
